@@ -111,6 +111,35 @@ Case draw_bits_case(const model::Desc & d, bool allow_large)
                     c.data.push_back(draw_bits(l.out));
                 }
             }
+            // one case in three plants the format's OWN header / footer words in the payload (a reader that looks for
+            // chunk boundaries in the data, or resynchronises on a magic word, is only visible then): a global magic
+            // word followed by a layer word, at an element boundary half of the time
+            if ((l.out == Sc::f32 || l.out == Sc::f64) && !c.data.empty() && *in_range<unsigned>(0, 2) == 0) {
+                const unsigned runs = *in_range<unsigned>(1, 3);
+                for (unsigned q = 0; q < runs; ++q) {
+                    const bool footer = *in_range<unsigned>(0, 1) == 1;
+                    static const uint32_t ids[] = {0xAB010000u, 0xAB010000u, 0xAB010000u, 0xAB010001u, 0xAB010002u, 0xAB000000u, 0xAB020000u, 0xAB020001u, 0xAB020002u, 0xAB020003u, 0xAB020004u, 0xAB020005u, 0xAB020006u, 0xAB020007u, 0xAB020008u, 0xAB020009u, 0xAB020010u};
+                    const uint32_t g = footer ? 0xC04F1E70u : 0xC04F1EABu;
+                    uint32_t w = ids[*in_range<unsigned>(0, unsigned(sizeof ids / sizeof *ids) - 1)];
+                    if (*in_range<unsigned>(0, 3) != 0) {
+                        w += footer ? 0x20000000u : 0u;   // the matching kind three times in four
+                    } else {
+                        w += footer ? 0u : 0x20000000u;
+                    }
+                    uint64_t pos = *in_range<uint64_t>(0, c.data.size() - 1);
+                    if (*in_range<unsigned>(0, 1) == 0) {
+                        pos -= pos % l.M;
+                    }
+                    if (l.out == Sc::f64) {
+                        c.data[pos] = uint64_t(g) | (uint64_t(w) << 32);
+                    } else {
+                        c.data[pos] = g;
+                        if (pos + 1 < c.data.size()) {
+                            c.data[pos + 1] = w;
+                        }
+                    }
+                }
+            }
         }
     }
     return c;
@@ -263,6 +292,13 @@ Verdict run(const Ctx & x, const Case & c)
     }
     if (special) {
         label("payload with non-finite or subnormal bit patterns");
+    }
+    bool magic_in_payload = false;
+    for (uint64_t w : c.data) {
+        magic_in_payload = magic_in_payload || uint32_t(w) == 0xC04F1E70u || uint32_t(w) == 0xC04F1EABu;
+    }
+    if (magic_in_payload) {
+        label("payload containing the format's own header / footer words");
     }
     record(x.inst, special || cfg_nondefault, fnv(bytes), [&] {
         json j = c.to_json();
